@@ -4,7 +4,13 @@ pub tracked struct IWorld {
     pub ghost removes: nat,               // remove_region_if_exists calls so far
     pub ghost imports: nat,               // import_with calls so far
     pub ghost first_kind: int,            // classification of the first import_with result (see err_kind)
+    pub ghost removed: Set<Seq<u8>>,      // names of the regions removed so far (successful remove_region_if_exists calls)
+    pub ghost gone_at_reimport: Set<Seq<u8>>, // `removed` as it stood when the second import_with was entered
 }
+// the region names a vector owns: `{name}/{index}` and its auxiliary region (`.._pages` for compressed, `.._holes` for raw)
+pub uninterp spec fn data_name<I>(n: Seq<u8>) -> Seq<u8>;
+pub uninterp spec fn pages_name<I>(n: Seq<u8>) -> Seq<u8>;
+pub uninterp spec fn holes_name<I>(n: Seq<u8>) -> Seq<u8>;
 #[verifier::external_body] pub struct Database { _p: core::marker::PhantomData<u8> }
 // 0 = Ok, 1 = WrongEndian, 2 = WrongLength, 3 = DifferentFormat, 4 = DifferentVersion, 9 = anything else (I/O, lock, rawdb ...)
 pub open spec fn err_kind<V>(r: Result<V>) -> int {
@@ -24,8 +30,9 @@ impl Database {
     pub fn remove_region_if_exists(&self, name: &StrH, Tracked(w): Tracked<&mut IWorld>) -> (r: std::result::Result<(), RawDbErr>)
         requires old(w).imports >= 1 && is_mismatch(old(w).first_kind)      // C14.onlymismatch
         ensures final(w).removes == old(w).removes + 1, final(w).imports == old(w).imports, final(w).first_kind == old(w).first_kind,
-                final(w).user_version == old(w).user_version
+                final(w).user_version == old(w).user_version, final(w).gone_at_reimport == old(w).gone_at_reimport,
+                final(w).removed == (if r is Ok { old(w).removed.insert(name.bytes()) } else { old(w).removed })
     { unimplemented!() }
 }
 impl From<RawDbErr> for Error { #[verifier::external_body] fn from(e: RawDbErr) -> (r: Error) ensures r is RawDB { unimplemented!() } }
-#[verifier::external_body] pub fn vec_region_name_with<I>(name: &StrH) -> StrH { unimplemented!() }
+#[verifier::external_body] pub fn vec_region_name_with<I>(name: &StrH) -> (r: StrH) ensures r.bytes() == data_name::<I>(name.bytes()) { unimplemented!() }
